@@ -14,11 +14,11 @@ def short_dyadics(rng, n, lo, hi, bits=10):
   return (np.round(v / q) * q).astype(np.float32)
 
 
-def grad_of(q, xs, w=None):
+def grad_of(q, xs, w=None, variable=False):
   """(value, d sum(w*y) / dx / w).  `w`: upstream gradient, powers of two (division exact); with a
   non-constant upstream gradient a leak through a reduction (K.max of an auto scale) cannot cancel."""
   import tensorflow as tf
-  x = tf.constant(xs)
+  x = tf.Variable(xs) if variable else tf.constant(xs)
   with tf.GradientTape() as tape:
     tape.watch(x)
     y = q(x)
@@ -30,6 +30,38 @@ def grad_of(q, xs, w=None):
   if w is not None:
     g = (g / w).astype(np.float32)
   return np.asarray(y, dtype=np.float32), g
+
+
+class FixedUniform:
+  """stand-in for `tf.random.uniform` while installed: every call returns the SAME fixed unit draws `U`
+  (tiled to the requested shape), scaled as random_ops.random_uniform does for minval / maxval; the
+  (value, gradient) of the training branches becomes a deterministic function of (x, U)"""
+
+  def __init__(self, tf, mods):
+    self.tf = tf
+    self.U = None
+    self.calls = 0
+    self.saved = [(m, m.uniform) for m in mods]
+    for m in mods:
+      m.uniform = self.fake
+
+  def restore(self):
+    for m, f in self.saved:
+      m.uniform = f
+    self.saved = []
+
+  def fake(self, shape, minval=0, maxval=None, dtype=None, seed=None, name=None):
+    tf = self.tf
+    self.calls += 1
+    shp = [int(v) for v in np.asarray(shape).reshape(-1)]
+    n = int(np.prod(shp)) if shp else 1
+    U = self.U if self.U is not None else np.zeros(1, dtype=np.float32)
+    u = tf.constant(np.resize(np.asarray(U, dtype=np.float32).ravel(), n).reshape(shp))
+    if maxval is None and isinstance(minval, (int, float)) and minval == 0:
+      return u
+    if maxval is None:
+      maxval = 1.0
+    return u * (maxval - minval) + minval
 
 
 def is_po2(v):
@@ -53,6 +85,16 @@ def run(run: core.Run, tier: str):
       "tf.GradientTape (value, gradient) compared exactly with the Lean dual-number model (the implementation's "
       "scale is an oracle input of the auto-scaled transcriptions); the clause oracle checks on the real code "
       "gradient == surrogate' and value == x_u + qnoise_factor * (q(x) - x_u); "
+      "round 2 streams, all through the same tie and oracle: use_stochastic_rounding=True for every class that has "
+      "the flag (+ stochastic_binary / stochastic_ternary / bernoulli / quantized_hswish) in learning phase 0 AND 1 "
+      "(tf.random.uniform patched to fixed draws: odd/128, 0, 1-2^-23, random k/2^23); every legal negative_slope "
+      "{0, 1/8, 1/2, 1, 2, 4} x max_value / bounds (incl. relu_upper_bound=0.0) x use_ste x qnoise_factor {1, 0, 1/2} "
+      "for quantized_relu_po2 and quantized_relu, slope as int / numpy, use_sigmoid, quadratic_approximation, "
+      "log2_rounding='floor' together with the flag; histories on ONE object (used on another rank, then "
+      "update_qnoise_factor via attribute / tf.Variable / tf.Variable argument / assignment / use_ste flip / second "
+      "call) compared with a fresh twin; tensors of rank 0..5 with unit dimensions, tf.Variable inputs; numeric options "
+      "as numpy scalars / 0-d arrays / tf.constant / tf.Variable; set_internal_sigmoid modes in both orders, "
+      "learning phase 1 without the flag, channels_first; "
       "non-trivial = distinct (configuration, input)")
   F32 = lambda v: F(float(np.float32(v)))
   lines, meta = [], []
@@ -341,7 +383,8 @@ def run(run: core.Run, tier: str):
       add("binter", dict(alpha_none=alpha is None), q, xs,
           dict(xqs=core.enc_list(ys), ths=core.enc_list(np.asarray(th)), dths=core.enc_list(np.asarray(dth))),
           label="%s(alpha=%s)" % (cls, alpha),
-          surrogate=("tanh" if alpha is None else "scaled_identity", F(1)), key=dict(cls=cls, alpha=str(alpha)))
+          surrogate=(("tanh", np.asarray(dth, dtype=np.float32)) if alpha is None else ("scaled_identity", F(1))),
+          key=dict(cls=cls, alpha=str(alpha)))
 
   for cls in ("binary", "ternary"):
     for alpha in ("auto", "auto_po2"):
@@ -360,6 +403,722 @@ def run(run: core.Run, tier: str):
           label="%s(alpha=%s) on a 8x3 tensor" % (cls, alpha),
           surrogate=("scaled_identity", F(1)), key=dict(cls=cls, alpha=str(alpha)), pre=(ys.ravel(), gs.ravel()))
 
+  # ====================================================================================================
+  # Strengthening round 2 (seeds C06-5, C06-6 + cross-cutting streams): every stream below measures
+  # (value, gradient) on the real code through some ROUTE (learning phase x use_stochastic_rounding with the
+  # random source patched to fixed draws; every legal negative_slope; a history on one object; tensors of
+  # rank 0..5; process-level switches; other argument forms) and hands it to the SAME model tie and the SAME
+  # clause oracle as a freshly built quantizer called once.
+  # ====================================================================================================
+  import tensorflow.keras.backend as K
+  mods = [Q.tf.random] + ([tf.random] if tf.random is not Q.tf.random else [])
+  fu = FixedUniform(tf, mods)
+  HALF = F(1, 2)
+
+  def draws(n):
+    """unit draws: odd/128 (never on a rounding edge of `fraction`), 0, the largest float32 below 1, and
+    random multiples of 2^-23"""
+    k = rng.integers(0, 64, size=n)
+    u = (2 * k + 1) / 128.0
+    sel = rng.integers(0, 8, size=n)
+    u = np.where(sel == 0, 0.0, u)
+    u = np.where(sel == 1, 1.0 - 2.0 ** -23, u)
+    u = np.where(sel == 2, rng.integers(0, 2 ** 23, size=n) / 2.0 ** 23, u)
+    return u.astype(np.float32)
+
+  def measure(q, xs, w=None, phase=0, U=None, variable=False):
+    K.set_learning_phase(1 if phase else 0)
+    fu.U = U
+    try:
+      return grad_of(q, xs, w, variable=variable)
+    finally:
+      K.set_learning_phase(0)
+      fu.U = None
+
+  def value_of(q, xs, phase=0, U=None):
+    K.set_learning_phase(1 if phase else 0)
+    fu.U = U
+    try:
+      return np.asarray(q(tf.constant(xs)), dtype=np.float32)
+    finally:
+      K.set_learning_phase(0)
+      fu.U = None
+
+  # ---- specifications: one per (class, options); `make(**override)` builds the real quantizer
+  def S_bits(bits, integer, sym, kn, alpha, ste, qf, stoch=False):
+    ub = bits - kn
+    step = 2.0 ** (integer - ub)
+    hi = (2 ** ub - 1) * step
+    lo = (-(2 ** ub) + sym) * step if kn else 0.0
+
+    def make(**o):
+      kw = dict(bits=bits, integer=integer, symmetric=sym, keep_negative=kn, alpha=alpha, use_ste=ste,
+                qnoise_factor=float(qf), use_stochastic_rounding=stoch)
+      kw.update(o)
+      return Q.quantized_bits(**kw)
+    return dict(cls="quantized_bits", make=make, one=dict(use_ste=True, qnoise_factor=1.0), op="bits",
+                cfg=dict(bits=bits, integer=integer, symmetric=sym, keep_negative=kn,
+                         alpha=None if alpha is None else core.rj(alpha)),
+                extra=lambda xs, y1: dict(use_ste=ste, qf=core.rj(qf)),
+                surrogate=lambda xs, ex: ("scaled_identity", (F(1) if ste else 1 - qf)), mix="identity", qf=qf, stoch=stoch,
+                key=dict(cls="quantized_bits", use_ste=ste, qf_is_1=(qf == 1)),
+                label="quantized_bits(%d,%d,%d,keep_negative=%d,alpha=%s,use_ste=%s,qnoise_factor=%s)"
+                % (bits, integer, sym, kn, alpha, ste, qf),
+                edges=[lo, hi, 0.0, 0.5 * step, 1.5 * step], span=2.0 ** integer * 1.2)
+
+  def S_linear(bits, integer, sym, kn, alpha, qf, stoch=False):
+    ub = bits - kn
+    qs = (1.0 if alpha is None else alpha) * 2.0 ** (integer - ub)
+    if bits == 1 and kn:
+      lo, hi = -0.5 * qs, 0.5 * qs
+    else:
+      hi = (2 ** ub - 1) * qs
+      lo = (-(2 ** ub) + sym) * qs if kn else 0.0
+
+    def make(**o):
+      kw = dict(bits=bits, integer=integer, symmetric=sym, keep_negative=kn, alpha=alpha,
+                qnoise_factor=float(qf), use_stochastic_rounding=stoch)
+      kw.update(o)
+      kw.pop("use_ste", None)
+      return Q.quantized_linear(**kw)
+    return dict(cls="quantized_linear", make=make, one=dict(qnoise_factor=1.0), op="linear",
+                cfg=dict(bits=bits, integer=integer, symmetric=sym, keep_negative=kn,
+                         alpha=None if alpha is None else core.rj(alpha)),
+                extra=lambda xs, y1: dict(qf=core.rj(qf)),
+                surrogate=lambda xs, ex: ("linear_clip", (F32(lo), F32(hi), qf)), mix="identity", qf=qf, stoch=stoch,
+                key=dict(cls="quantized_linear"),
+                label="quantized_linear(%d,%d,%d,keep_negative=%d,alpha=%s,qnoise_factor=%s)"
+                % (bits, integer, sym, kn, alpha, qf),
+                edges=[lo, hi, 0.5 * qs, 1.5 * qs], span=max(abs(lo), abs(hi)) * 1.5 + qs,
+                # 1-bit sign function: `clipped - 0.5` is a float32 rounding at the ulp neighbours of the kinks,
+                # which only the stochastic training branch can see (fraction 0 instead of 2^-25)
+                exact=(stoch and bits == 1 and bool(kn)))
+
+  def S_relu(bits, integer, slope, iqc, upper, ste, qf, stoch=False, slope_arg=None, use_sigmoid=0):
+    nsb = bits - (slope != 0)
+    bound = 2.0 ** integer - 2.0 ** (integer - nsb)
+    b_eff = bound if iqc else (upper if upper is not None else None)
+
+    def make(**o):
+      kw = dict(bits=bits, integer=integer, negative_slope=slope if slope_arg is None else slope_arg,
+                relu_upper_bound=upper, is_quantized_clip=iqc, use_ste=ste, qnoise_factor=float(qf),
+                use_stochastic_rounding=stoch, use_sigmoid=use_sigmoid)
+      kw.update(o)
+      return Q.quantized_relu(**kw)
+    fac = F(1) if ste else 1 - qf
+    return dict(cls="quantized_relu", make=make, one=dict(use_ste=True, qnoise_factor=1.0), op="relu",
+                cfg=dict(bits=bits, integer=integer, slope_log=None, slope=core.rj(slope), is_quantized_clip=iqc,
+                         upper=None if upper is None else core.rj(upper)),
+                extra=lambda xs, y1: dict(use_ste=ste, qf=core.rj(qf), xqs=core.enc_list(y1)),
+                surrogate=lambda xs, ex: ("relu", (F(slope), None if b_eff is None else F32(b_eff), fac)),
+                mix=(F(slope), None if b_eff is None else F32(b_eff)), qf=qf, stoch=stoch,
+                key=dict(cls="quantized_relu", use_ste=ste, qf_is_1=(qf == 1)),
+                label="quantized_relu(%d,%d,%snegative_slope=%s,relu_upper_bound=%s,is_quantized_clip=%s,use_ste=%s,"
+                "qnoise_factor=%s)" % (bits, integer, "use_sigmoid=1," if use_sigmoid else "", slope, upper, iqc, ste, qf),
+                exact=bool(use_sigmoid),
+                edges=[0.0, bound, 2.0 ** (integer - nsb) * 0.5] + ([upper] if upper else []),
+                span=2.0 ** integer * 1.5)
+
+  def S_po2(bits, mv, ste, qf, stoch=False, **more):
+    def make(**o):
+      kw = dict(bits=bits, max_value=mv, use_ste=ste, qnoise_factor=float(qf), use_stochastic_rounding=stoch)
+      kw.update(more)
+      kw.update(o)
+      return Q.quantized_po2(**kw)
+    return dict(cls="quantized_po2", make=make, one=dict(use_ste=True, qnoise_factor=1.0), op="po2", cfg=dict(),
+                extra=lambda xs, y1: dict(use_ste=ste, qf=core.rj(qf), xqs=core.enc_list(y1)),
+                surrogate=lambda xs, ex: ("scaled_identity", (F(1) if ste else 1 - qf)), mix="identity", qf=qf, stoch=stoch,
+                key=dict(cls="quantized_po2", use_ste=ste, qf_is_1=(qf == 1)),
+                label="quantized_po2(%d,%s,use_ste=%s,qnoise_factor=%s%s)" % (
+                    bits, mv, ste, qf, "".join(",%s=%s" % kv for kv in more.items())),
+                edges=[0.0, 1.0, mv or 4.0], span=4.0, exact=True)
+
+  def S_relu_po2(bits, mv, slope, ste, qf, stoch=False, slope_arg=None, **more):
+    def make(**o):
+      kw = dict(bits=bits, max_value=mv, negative_slope=slope if slope_arg is None else slope_arg, use_ste=ste,
+                qnoise_factor=float(qf), use_stochastic_rounding=stoch)
+      kw.update(more)
+      kw.update(o)
+      return Q.quantized_relu_po2(**kw)
+    fac = F(1) if ste else 1 - qf
+    return dict(cls="quantized_relu_po2", make=make, one=dict(use_ste=True, qnoise_factor=1.0), op="relu_po2",
+                cfg=dict(slope=core.rj(slope), max_value=None if mv is None else core.rj(mv)),
+                extra=lambda xs, y1: dict(use_ste=ste, qf=core.rj(qf), xqs=core.enc_list(y1)),
+                surrogate=lambda xs, ex: ("relu", (F(slope), None if mv is None else F32(mv), fac)),
+                mix=(F(slope), None if mv is None else F32(mv)), qf=qf, stoch=stoch,
+                key=dict(cls="quantized_relu_po2", use_ste=ste, qf_is_1=(qf == 1)),
+                label="quantized_relu_po2(%d,%s,negative_slope=%s,use_ste=%s,qnoise_factor=%s%s)" % (
+                    bits, mv, slope, ste, qf, "".join(",%s=%s" % kv for kv in more.items())),
+                edges=[0.0, 1.0, mv or 4.0], span=4.0)
+
+  def S_act(opn, bits, sym, real, stoch=False):
+    """quantized_tanh / quantized_sigmoid, surrogate value p and derivative p' as TensorFlow computes them under
+    the CURRENT internal-sigmoid mode (oracle inputs); clip bounds of the output for the mask clause"""
+    cls = "quantized_" + opn
+    m = 2.0 ** (bits - 1) if opn == "tanh" else 2.0 ** bits
+    lo = (-1.0 + sym / m) if opn == "tanh" else sym / m
+    hi = 1.0 - 1.0 / m
+
+    def make(**o):
+      kw = dict(bits=bits, symmetric=sym, use_stochastic_rounding=stoch)
+      if real:
+        kw["use_real_" + opn] = True
+      kw.update({k: v for k, v in o.items() if k in ("use_stochastic_rounding",)})
+      return getattr(Q, cls)(**kw)
+
+    def extra(xs, y1):
+      xt = tf.constant(xs)
+      with tf.GradientTape() as tape:
+        tape.watch(xt)
+        if real:
+          p = tf.tanh(xt) if opn == "tanh" else tf.sigmoid(xt)
+        else:
+          p = 2.0 * Q._sigmoid(xt) - 1.0 if opn == "tanh" else Q._sigmoid(xt)
+      dp = tape.gradient(p, xt)
+      dp = np.zeros_like(xs) if dp is None else np.asarray(dp, dtype=np.float32)
+      return dict(ps=core.enc_list(np.asarray(p, dtype=np.float32)), dps=core.enc_list(dp), _dp=dp)
+    return dict(cls=cls, make=make, one=None, op=opn + "_real", cfg=dict(bits=bits, symmetric=sym), extra=extra,
+                surrogate=lambda xs, ex: ("surrogate_mask", (ex["_dp"], F32(lo), F32(hi))), mix=None, qf=F(1), stoch=stoch,
+                key=dict(cls=cls, real=real),
+                label="%s(%d,symmetric=%d,%s surrogate as oracle)" % (cls, bits, sym, "real" if real else "internal"),
+                edges=[-1.0, 1.0, 0.0, (1 - 1 / m), -(1 - 1 / m), 1 - 0.5 / m, 2 * (1 - 1 / m) - 1, 0.5 / m], span=2.0,
+                any_points=True)
+
+  def spec_pts(spec, n=None):
+    exact = spec.get("exact", False) or (not spec.get("any_points") and spec["qf"] not in (0, 1))
+    xs = pts(spec["edges"], spec["span"], exact_only=exact)
+    if n is not None:
+      if len(xs) >= n:
+        keep = rng.permutation(len(xs))[:n]
+        xs = xs[np.sort(keep)]
+      else:
+        xs = np.concatenate([xs, xs[rng.integers(0, len(xs), size=n - len(xs))]])
+    return xs.astype(np.float32)
+
+  def emit(spec, xs, ys, gs, y1, tag, phase=0, U=None, keyx=None, stream=None):
+    xs = np.asarray(xs, dtype=np.float32).ravel()
+    ys = np.asarray(ys, dtype=np.float32).ravel()
+    gs = np.asarray(gs, dtype=np.float32).ravel()
+    y1 = None if y1 is None else np.asarray(y1, dtype=np.float32).ravel()
+    ex = spec["extra"](xs, y1)
+    sur = spec["surrogate"](xs, ex)
+    ex = {k: v for k, v in ex.items() if not k.startswith("_")}
+    if spec["stoch"]:
+      ex.update(stoch=True, phase=bool(phase),
+                us=core.enc_list(np.resize(np.zeros(1, np.float32) if U is None else U, len(xs))))
+    key = dict(spec["key"])
+    if spec["stoch"]:
+      key.update(stoch=True, phase=int(bool(phase)))
+    key.update(keyx or {})
+    add(spec["op"], spec["cfg"], None, xs, ex, label=spec["label"] + tag, surrogate=sur, key=key, pre=(ys, gs),
+        mix=None if spec["mix"] is None else (spec["qf"], y1, spec["mix"]))
+    if stream:
+      run.count("stream_" + stream, len(xs))
+
+  class guard:
+    """the real code raising on a legal route (rank, argument form, history, switch) is reported as a clause
+    failure `raises` of that case instead of aborting the run"""
+
+    def __init__(self, spec, route):
+      self.spec, self.route = spec, route
+
+    def __enter__(self):
+      return self
+
+    def __exit__(self, et, ev, tb):
+      if et is None or not issubclass(et, Exception) or issubclass(et, core.InfraError):
+        return False
+      run.violate("raises", dict(self.spec["key"], route=self.route.split(":")[0]),
+                  {"config": self.spec["label"], "route": self.route,
+                   "exception": "%s: %s" % (et.__name__, str(ev).replace("\n", " ")[:300])}, mirrored=False)
+      return True
+
+  def fresh(spec, xs, phase=0, U=None):
+    ys, gs = measure(spec["make"](), xs, phase=phase, U=U)
+    y1 = None if spec["one"] is None else value_of(spec["make"](**spec["one"]), xs, phase=phase, U=U)
+    return ys, gs, y1
+
+  try:
+    # ---------------------------------------------------------------------------------------------------
+    # stream `stoch`: use_stochastic_rounding=True in BOTH learning phases (module-level switch).  Phase 0 is the
+    # eager default: the inference branch of the smart_cond in _round_through; phase 1: the training branch with
+    # the random source patched.  quantized_linear / quantized_tanh / quantized_sigmoid route the gradient THROUGH
+    # _round_through; for the others the rounding sits under the outer stop_gradient.
+    # ---------------------------------------------------------------------------------------------------
+    stoch_specs = []
+    for qf in (F(1), F(0), F(1, 4)):
+      for a in [(4, 0, 1, 1, None), (3, 1, 0, 1, None), (4, 1, 1, 0, 0.5), (1, 0, 1, 1, None)]:
+        stoch_specs.append(S_linear(*a, qf, stoch=True))
+    for ste in (True, False):
+      for qf in (F(1), F(1, 4)):
+        for a in [(4, 0, 0, 1, None), (5, 2, 0, 0, None), (4, 0, 0, 1, 0.5)]:
+          stoch_specs.append(S_bits(*a, ste, qf, stoch=True))
+        for a in [(4, 1, 0.0, True, None), (4, 1, 0.25, True, None), (4, 2, 2.0, False, 3.0)]:
+          stoch_specs.append(S_relu(*a, ste, qf, stoch=True))
+        stoch_specs.append(S_po2(4, 2.0, ste, qf, stoch=True))
+        stoch_specs.append(S_relu_po2(4, 2.0, 0.25, ste, qf, stoch=True))
+        stoch_specs.append(S_relu_po2(4, None, 2.0, ste, qf, stoch=True))
+        # option combinations that are individually legal but rarely met together
+        stoch_specs.append(S_po2(4, None, ste, qf, stoch=True, log2_rounding="floor"))
+        stoch_specs.append(S_relu_po2(4, 2.0, 4.0, ste, qf, stoch=True, log2_rounding="floor", quadratic_approximation=True))
+        stoch_specs.append(S_relu(4, 1, 2.0, True, None, ste, qf, stoch=True, use_sigmoid=1))
+    for bits, sym in [(4, 0), (3, 1)]:
+      for opn in ("tanh", "sigmoid"):
+        for real in (False, True):
+          stoch_specs.append(S_act(opn, bits, sym, real, stoch=True))
+    for phase in (0, 1):
+      for spec in stoch_specs:
+        with guard(spec, "learning_phase=%d" % phase):
+          xs = spec_pts(spec)
+          U = draws(len(xs))
+          ys, gs, y1 = fresh(spec, xs, phase=phase, U=U)
+          emit(spec, xs, ys, gs, y1, " [use_stochastic_rounding=True, learning_phase=%d]" % phase, phase=phase, U=U,
+               stream="stoch_phase%d" % phase)
+      # exact hard-surrogate model (short dyadic points only), stochastic flag
+      for bits, sym in [(4, 0), (3, 1)]:
+        for cls, opn in (("quantized_tanh", "tanh"), ("quantized_sigmoid", "sigmoid")):
+          m = 2.0 ** (bits - 1) if opn == "tanh" else 2.0 ** bits
+          edges = [-1.0, 1.0, 0.0, (1 - 1 / m), -(1 - 1 / m), 1 - 0.5 / m, 2 * (1 - 1 / m) - 1, 0.5 / m]
+          xs = pts(edges, 2.0, exact_only=True)
+          U = draws(len(xs))
+          ys, gs = measure(getattr(Q, cls)(bits, symmetric=sym, use_stochastic_rounding=True), xs, phase=phase, U=U)
+          add(opn + "_hard", dict(bits=bits, symmetric=sym), None, xs,
+              dict(stoch=True, phase=bool(phase), us=core.enc_list(U)),
+              label="%s(%d,symmetric=%d) [use_stochastic_rounding=True, learning_phase=%d]" % (cls, bits, sym, phase),
+              surrogate=("hard_" + opn, (bits, sym)), key=dict(cls=cls, real=False, stoch=True, phase=phase),
+              pre=(ys, gs))
+      # quantized_linear with a data-dependent scale and stochastic rounding
+      for alpha in ("auto", "auto_po2"):
+        for bits, sym, kn in [(4, 1, 1), (4, 0, 1), (3, 0, 0)]:
+          ub = bits - kn
+          cmax = F(2 ** ub - 1)
+          cmin = F(-(2 ** ub) + sym) if kn else F(0)
+          top = float((cmax - cmin) / 2) if kn else float(cmax)
+          ks = [int(k) for k in rng.integers(-3, 4, size=3)]
+          x2 = crafted(3, 12, top, ks, signed_max=not kn)
+          w = po2w(x2.shape)
+          U = draws(x2.size)
+          for qf in (F(1), F(1, 4)):
+            q = Q.quantized_linear(bits, 0, sym, keep_negative=kn, alpha=alpha, qnoise_factor=float(qf),
+                                   use_stochastic_rounding=True)
+            ys, gs = measure(q, x2, w, phase=phase, U=U)
+            qs = np.broadcast_to(np.asarray(q.quantization_scale, dtype=np.float32), x2.shape)
+            y1 = value_of(Q.quantized_linear(bits, 0, sym, keep_negative=kn, alpha=alpha, use_stochastic_rounding=True),
+                          x2, phase=phase, U=U)
+            add("linear_s", dict(bits=bits, integer=0, symmetric=bool(sym), keep_negative=bool(kn)), None, x2.ravel(),
+                dict(qf=core.rj(qf), qss=core.enc_list(qs.ravel()), stoch=True, phase=bool(phase),
+                     us=core.enc_list(U)),
+                label="quantized_linear(%d,0,%d,keep_negative=%d,alpha=%s,qnoise_factor=%s) on a 12x3 tensor "
+                "[use_stochastic_rounding=True, learning_phase=%d]" % (bits, sym, kn, alpha, qf, phase),
+                surrogate=("linear_clip_s", (cmin, cmax, qf, qs.ravel())),
+                key=dict(cls="quantized_linear", alpha=alpha, stoch=True, phase=phase),
+                pre=(ys.ravel(), gs.ravel()), mix=(qf, y1.ravel(), "identity"))
+      # ternary (data-dependent scale is mandatory with the flag) and the stochastic_* classes: gradient clause
+      # through the `binter` transcription (the emitted tensor is the oracle value)
+      for cls, kw, sur_none in [("ternary", dict(alpha="auto", use_stochastic_rounding=True), False),
+                                ("ternary", dict(alpha="auto_po2", use_stochastic_rounding=True), False),
+                                ("stochastic_ternary", dict(alpha="auto"), False),
+                                ("stochastic_ternary", dict(alpha="auto_po2"), False),
+                                ("stochastic_binary", dict(alpha=1.0), False),
+                                ("stochastic_binary", dict(alpha="auto"), False),
+                                ("stochastic_binary", dict(alpha="auto_po2"), False),
+                                ("stochastic_binary", dict(), True),
+                                ("bernoulli", dict(), False), ("bernoulli", dict(alpha=0.5), False),
+                                ("bernoulli", dict(alpha="auto"), False), ("bernoulli", dict(alpha="auto_po2"), False)]:
+        for shape in ((16,), (8, 3)):
+          x2 = short_dyadics(rng, int(np.prod(shape)), -2, 2).reshape(shape)
+          x2 = np.where(x2 == 0, np.float32(0.5), x2).astype(np.float32)
+          w = po2w(shape)
+          U = draws(x2.size)
+          q = getattr(Q, cls)(**kw)
+          ys, gs = measure(q, x2, w, phase=phase, U=U)
+          xt = tf.constant(x2.ravel())
+          with tf.GradientTape() as tape:
+            tape.watch(xt)
+            th = tf.tanh(xt)
+          dth = np.asarray(tape.gradient(th, xt), dtype=np.float32)
+          # stochastic_binary(alpha=None): tanh surrogate at inference (binary.__call__), identity when sampling
+          an = sur_none and phase == 0
+          add("binter", dict(alpha_none=an), None, x2.ravel(),
+              dict(xqs=core.enc_list(ys.ravel()), ths=core.enc_list(np.asarray(th)), dths=core.enc_list(dth)),
+              label="%s(%s) on a %s tensor [learning_phase=%d]" % (
+                  cls, ",".join("%s=%s" % kv for kv in kw.items()), "x".join(map(str, shape)), phase),
+              surrogate=(("tanh", dth) if an else ("scaled_identity", F(1))),
+              key=dict(cls=cls, alpha=str(kw.get("alpha")), phase=phase), pre=(ys.ravel(), gs.ravel()))
+      # binary(use_stochastic_rounding=True): in the training phase the carrier is f * round_through(x / f) with
+      # f = 2 * min(max|x|, 1) — one line per scale group; tensors with a unique arg-max +-2^k per group so that
+      # every float32 operation is exact (k <= 0: f differentiable; k = 1: clamped to 1)
+      for alpha in (None, 1.0, 0.5, "auto", "auto_po2"):
+        for rank2 in (False, True):
+          kexp = [int(k) for k in rng.permutation([-2, -1, 0, 1])[: (3 if rank2 else 1)]]
+          if not rank2 and phase == 1 and alpha in (1.0, None):
+            kexp = [-1]
+          cols = []
+          for k in kexp:
+            mval = 2.0 ** k
+            fval = 2.0 * min(mval, 1.0)
+            c = rng.integers(-63, 64, size=10) * (fval / 64.0)
+            c = np.clip(c, -mval * 63 / 64, mval * 63 / 64)
+            c[1] = 0.0
+            c[0] = mval if rng.integers(0, 2) else -mval
+            cols.append(c)
+          x2 = np.stack(cols, axis=1).astype(np.float32)
+          if not rank2:
+            x2 = x2[:, 0]
+          w = po2w(x2.shape)
+          U = draws(x2.size).reshape(x2.shape)
+          q = Q.binary(alpha=alpha, use_stochastic_rounding=True)
+          ys, gs = measure(q, x2, w, phase=phase, U=U.ravel())
+          X = x2.reshape(len(x2), -1)
+          Y, G, W, UU = (a.reshape(len(x2), -1) for a in (ys, gs, w, U))
+          for j in range(X.shape[1]):
+            xc, uc = X[:, j].astype(np.float64), UU[:, j].astype(np.float64)
+            mval = float(np.max(np.abs(xc)))
+            fval = 2.0 * min(mval, 1.0)
+            if phase:
+              sx = xc / fval * 8.0
+              fl = np.floor(sx)
+              xr = (np.where(sx - fl < uc, fl, np.ceil(sx)) / 8.0 * fval).astype(np.float32)
+            else:
+              xr = xc.astype(np.float32)
+            xt = tf.constant(xr)
+            with tf.GradientTape() as tape:
+              tape.watch(xt)
+              th = tf.tanh(xt)
+            dth = np.asarray(tape.gradient(th, xt), dtype=np.float32)
+            xt0 = tf.constant(X[:, j])
+            with tf.GradientTape() as tape:
+              tape.watch(xt0)
+              th0 = tf.tanh(xt0)
+            dth0 = np.asarray(tape.gradient(th0, xt0), dtype=np.float32)
+            add("binary_sr", dict(alpha_none=alpha is None), None, X[:, j],
+                dict(phase=bool(phase), xqs=core.enc_list(Y[:, j]), ths=core.enc_list(np.asarray(th)),
+                     dths=core.enc_list(dth), us=core.enc_list(UU[:, j]), ws=core.enc_list(W[:, j]), f=core.rj(fval),
+                     imax=(int(np.argmax(np.abs(xc))) if mval <= 1.0 else None)),
+                label="binary(alpha=%s,use_stochastic_rounding=True) on a %s tensor, channel %d [learning_phase=%d]"
+                % (alpha, "x".join(map(str, x2.shape)), j, phase),
+                surrogate=(("tanh", dth0) if alpha is None else ("scaled_identity", F(1))),
+                key=dict(cls="binary", alpha_none=alpha is None, stoch=True, phase=phase),
+                pre=(Y[:, j], G[:, j]))
+            run.count("binary_sr_phase%d_f_%s" % (phase, "differentiable" if mval <= 1.0 else "clamped"), len(xc))
+
+    # ---------------------------------------------------------------------------------------------------
+    # stream `slopes`: every legal negative_slope (0, 2^-k, 1, 2, 4 — the constructors only require a power of
+    # two) x max_value / bounds x use_ste x qnoise_factor in {1, 0, 1/2}; slope also given as python int / numpy
+    # ---------------------------------------------------------------------------------------------------
+    slope_specs = []
+    for slope in (0.0, 0.125, 0.5, 1.0, 2.0, 4.0):
+      for mv in (None, 2.0, 0.5):
+        for ste in (True, False):
+          for qf in (F(1), F(0), HALF):
+            if tier == "quick" and mv == 0.5 and qf == 0:
+              continue
+            slope_specs.append(S_relu_po2(4, mv, slope, ste, qf))
+    for slope in (1.0, 2.0, 4.0, 0.5):
+      for bits, integer, iqc, upper in [(4, 1, True, None), (4, 1, False, 1.5), (5, 2, False, None), (4, 2, False, 0.0)]:
+        for ste in (True, False):
+          for qf in (F(1), F(0), HALF):
+            if tier == "quick" and qf == 0 and not ste:
+              continue
+            slope_specs.append(S_relu(bits, integer, slope, iqc, upper, ste, qf))
+    for ste in (True, False):
+      for qf in (F(1), HALF):
+        slope_specs.append(S_relu(4, 1, 4.0, False, 1.5, ste, qf, use_sigmoid=1))
+        slope_specs.append(S_relu(4, 0, 0.0, True, None, ste, qf, use_sigmoid=1))
+        slope_specs.append(S_relu_po2(4, None, 2.0, ste, qf, quadratic_approximation=True))
+        slope_specs.append(S_relu_po2(4, 0.5, 4.0, ste, qf, log2_rounding="floor"))
+        slope_specs.append(S_po2(4, 2.0, ste, qf, quadratic_approximation=True, log2_rounding="floor"))
+    for form, conv in (("int", int), ("np.float32", np.float32), ("np.float64", np.float64)):
+      for slope in (1.0, 2.0, 4.0):
+        slope_specs.append(dict(S_relu_po2(4, 2.0, slope, True, HALF, slope_arg=conv(slope)), tag=" [negative_slope as %s]" % form))
+        slope_specs.append(dict(S_relu_po2(4, None, slope, False, HALF, slope_arg=conv(slope)), tag=" [negative_slope as %s]" % form))
+        slope_specs.append(dict(S_relu(4, 2, slope, False, None, True, HALF, slope_arg=conv(slope)), tag=" [negative_slope as %s]" % form))
+        slope_specs.append(dict(S_relu(4, 1, slope, True, None, False, HALF, slope_arg=conv(slope)), tag=" [negative_slope as %s]" % form))
+    for spec in slope_specs:
+      with guard(spec, "slopes"):
+        xs = spec_pts(spec)
+        ys, gs, y1 = fresh(spec, xs)
+        emit(spec, xs, ys, gs, y1, spec.get("tag", ""), stream="slopes")
+        run.count("slopes_" + spec["cls"], len(xs))
+
+    # ---------------------------------------------------------------------------------------------------
+    # base specifications shared by the history / rank / argument-form / process-state streams
+    # ---------------------------------------------------------------------------------------------------
+    def base_specs(qf, ste):
+      return [S_bits(4, 1, 0, 1, None, ste, qf), S_bits(5, 2, 1, 1, 0.5, ste, qf),
+              S_linear(4, 1, 1, 1, None, qf), S_linear(3, 0, 0, 0, 0.5, qf),
+              S_relu(4, 1, 0.25, True, None, ste, qf), S_relu(4, 2, 2.0, False, 3.0, ste, qf),
+              S_po2(4, 2.0, ste, qf), S_relu_po2(4, 2.0, 4.0, ste, qf), S_relu_po2(4, None, 0.25, ste, qf)]
+
+    # ---- stream `history`: ONE object used several times — called on a tensor of another rank first, its
+    # qnoise_factor changed through the update API (plain attribute / tf.Variable built by use_variables / a
+    # tf.Variable argument) or by assignment, use_ste flipped, then called on the test tensor: the k-th use must
+    # be the (value, gradient) of a freshly built quantizer in the final configuration.
+    hist = 0
+    for qf, ste in ((HALF, True), (F(1), True), (F(1, 4), False), (F(0), True)):
+      for spec in base_specs(qf, ste):
+        with guard(spec, "history"):
+          qf0 = F(1) if qf != 1 else F(1, 4)
+          xs = spec_pts(spec, 24)
+          warm = short_dyadics(rng, 12, -2, 2).reshape(2, 3, 2)
+          variants = ["update", "update_variable", "update_tfvar_arg", "assign", "twice"]
+          if "use_ste" in spec["one"]:
+            variants.append("flip_use_ste")
+          variant = variants[hist % len(variants)]
+          hist += 1
+          if variant == "update_variable":
+            q = spec["make"](qnoise_factor=float(qf0), use_variables=True)
+          elif variant == "flip_use_ste":
+            q = spec["make"](use_ste=not ste)
+          elif variant == "twice":
+            q = spec["make"]()
+          else:
+            q = spec["make"](qnoise_factor=float(qf0))
+          grad_of(q, warm)                                     # first use: another rank, under a tape
+          if variant in ("update", "update_variable"):
+            q.update_qnoise_factor(float(qf))
+          elif variant == "update_tfvar_arg":
+            q.update_qnoise_factor(tf.Variable(float(qf), dtype=tf.float32))
+          elif variant == "assign":
+            q.qnoise_factor = float(qf)
+          elif variant == "flip_use_ste":
+            q.use_ste = ste
+          else:
+            grad_of(q, xs[:5])
+          ys, gs = measure(q, xs)
+          y1 = value_of(spec["make"](**spec["one"]), xs)
+          emit(spec, xs, ys, gs, y1, " [history: %s, used before on a 2x3x2 tensor]" % variant, stream="history")
+          # fresh twin: identical outputs
+          ys2, gs2 = measure(spec["make"](), xs)
+          if not (np.array_equal(ys, ys2) and np.array_equal(gs, gs2)):
+            i = int(np.argmax((ys != ys2) | (gs != gs2)))
+            run.violate("history_twin", dict(spec["key"], variant=variant),
+                        {"config": spec["label"], "history": variant, "x": float(xs[i]),
+                         "value_grad_after_history": [float(ys[i]), float(gs[i])],
+                         "value_grad_fresh_twin": [float(ys2[i]), float(gs2[i])]}, mirrored=False)
+          run.count("history_" + variant)
+    # auto-scaled objects: first call on another tensor (another scale), then the crafted one
+    for alpha in ("auto", "auto_po2"):
+      for cls in ("quantized_bits", "quantized_linear"):
+        for qf in (F(1), F(1, 4)):
+          bits, integer = 4, (2 if cls == "quantized_bits" else 0)
+          L = 2 ** (bits - 1) - 1
+          ks = [int(k) for k in rng.integers(-3, 4, size=3)]
+          x2 = crafted(3, 12, L, ks)
+          w = po2w(x2.shape)
+          q = getattr(Q, cls)(bits, integer, 1, alpha=alpha, qnoise_factor=1.0)
+          grad_of(q, (x2[:4] * 8).astype(np.float32))
+          grad_of(q, short_dyadics(rng, 24, -1, 1).reshape(2, 2, 2, 3))
+          q.update_qnoise_factor(float(qf))
+          ys, gs = measure(q, x2, w)
+          q1 = getattr(Q, cls)(bits, integer, 1, alpha=alpha)
+          y1 = value_of(q1, x2)
+          tagh = " on a 12x3 tensor [history: used on 4x3 and 2x2x2x3 tensors, then update_qnoise_factor]"
+          if cls == "quantized_bits":
+            S = np.broadcast_to(np.asarray(q.scale, dtype=np.float32), x2.shape)
+            add("bits_auto", dict(bits=bits, integer=integer, keep_negative=True), None, x2.ravel(),
+                dict(use_ste=True, qf=core.rj(qf), ss=core.enc_list(S.ravel())),
+                label="quantized_bits(%d,%d,1,alpha=%s,qnoise_factor=%s)%s" % (bits, integer, alpha, qf, tagh),
+                surrogate=("scaled_identity", F(1)), key=dict(cls=cls, alpha=alpha, use_ste=True, qf_is_1=(qf == 1)),
+                pre=(ys.ravel(), gs.ravel()), mix=(qf, y1.ravel(), "identity"))
+          else:
+            qs = np.broadcast_to(np.asarray(q.quantization_scale, dtype=np.float32), x2.shape)
+            add("linear_s", dict(bits=bits, integer=integer, symmetric=True, keep_negative=True), None, x2.ravel(),
+                dict(qf=core.rj(qf), qss=core.enc_list(qs.ravel())),
+                label="quantized_linear(%d,%d,1,alpha=%s,qnoise_factor=%s)%s" % (bits, integer, alpha, qf, tagh),
+                surrogate=("linear_clip_s", (F(-L), F(L), qf, qs.ravel())), key=dict(cls=cls, alpha=alpha),
+                pre=(ys.ravel(), gs.ravel()), mix=(qf, y1.ravel(), "identity"))
+          run.count("history_auto")
+
+    # ---- stream `rank`: tensors of rank 0..5 (dimensions of size 1 included); numpy-fed tf.Variable input
+    shapes = [(), (24,), (4, 6), (2, 3, 4), (2, 1, 3, 4), (1, 2, 3, 2, 2), (1,), (1, 1), (24, 1)]
+    ri = 0
+    for qf, ste in ((F(1), True), (HALF, False)):
+      for spec in base_specs(qf, ste) + [S_act("tanh", 4, 0, False), S_act("sigmoid", 4, 1, True)]:
+        xs = spec_pts(spec, 24)
+        for shape in (shapes if tier != "quick" else [shapes[0]] + [shapes[1 + (ri + j) % 8] for j in range(3)]):
+          n = int(np.prod(shape)) if shape else 1
+          if shape == ():
+            sel = rng.permutation(24)[:4]
+            parts = [(xs[i].reshape(()), ) for i in sel]
+          else:
+            parts = [(xs[:n].reshape(shape), )]
+          for (xt_,) in parts:
+            with guard(spec, "rank:%d %s" % (len(shape), list(shape))):
+              var = (ri % 4 == 3)
+              ys, gs = measure(spec["make"](), xt_, variable=var)
+              y1 = None if spec["one"] is None else value_of(spec["make"](**spec["one"]), xt_)
+              if ys.shape != xt_.shape or gs.shape != xt_.shape:
+                run.violate("shape", dict(spec["key"], rank=len(shape)),
+                            {"config": spec["label"], "input_shape": list(shape), "output_shape": list(ys.shape),
+                             "gradient_shape": list(gs.shape)}, mirrored=False)
+                continue
+              emit(spec, xt_, ys, gs, y1, " on a rank-%d tensor %s%s" % (len(shape), list(shape), " (tf.Variable input)" if var else ""),
+                   stream="rank%d" % len(shape))
+        ri += 1
+    # data-dependent scales on ranks 0..5: gradient clause only (rank 0 raises for quantized_bits: recorded count)
+    for cls, kw in [("quantized_bits", dict(bits=5, integer=1, symmetric=1, alpha="auto")),
+                    ("quantized_bits", dict(bits=5, integer=1, symmetric=1, alpha="auto_po2")),
+                    ("quantized_linear", dict(bits=5, integer=1, symmetric=1, alpha="auto")),
+                    ("quantized_linear", dict(bits=5, integer=1, symmetric=1, alpha="auto_po2")),
+                    ("binary", dict(alpha="auto")), ("binary", dict(alpha="auto_po2")),
+                    ("ternary", dict(alpha="auto")), ("ternary", dict(alpha="auto_po2"))]:
+      for shape in [(), (1,), (6,), (2, 3, 4), (2, 1, 3, 2), (1, 2, 3, 2, 2)]:
+        xs = short_dyadics(rng, int(np.prod(shape)) if shape else 1, -2, 2).reshape(shape)
+        xs = np.where(xs == 0, np.float32(0.5), xs).astype(np.float32)
+        w = po2w(shape)
+        label = "%s(%s) on a rank-%d tensor %s" % (cls, ",".join("%s=%s" % kv for kv in kw.items()), len(shape), list(shape))
+        try:
+          qobj = getattr(Q, cls)(**kw)
+          ys, gs = measure(qobj, xs, w)
+        except Exception as e:  # pylint: disable=broad-except
+          run.count("auto_scale_rank%d_raises_%s" % (len(shape), type(e).__name__))
+          continue
+        if ys.shape != xs.shape or gs.shape != xs.shape:
+          run.violate("shape", dict(cls=cls, alpha=kw["alpha"], rank=len(shape)),
+                      {"config": label, "output_shape": list(ys.shape), "gradient_shape": list(gs.shape)}, mirrored=False)
+          continue
+        if cls == "quantized_linear":
+          # clip range in units of the implementation's own scale (a 1-D tensor has one scale PER ELEMENT, an
+          # 'auto_po2' scale may round down: elements beyond the clip range legitimately have gradient 0)
+          qsv = np.broadcast_to(np.asarray(qobj.quantization_scale, dtype=np.float32), xs.shape).ravel()
+        inside = 0
+        for i, (x, g) in enumerate(zip(xs.ravel(), gs.ravel())):
+          run.case((label, float(x)))
+          run.compared += 1
+          want = F(1)
+          if cls == "quantized_linear":
+            # the scale is a generic float32 here: the clip test is on the float32 quotient, as in the code
+            r = F(float(np.float32(x) / np.float32(qsv[i])))
+            want = F(1) if -15 < r < 15 else (F(0) if (r < -15 or r > 15) else None)
+          inside += (want == 1)
+          if want is not None and F(float(g)) != want:
+            run.violate("grad_ste", dict(cls=cls, alpha=kw["alpha"], kind="scaled_identity", use_ste=True, qf_is_1=True),
+                        {"config": label, "x": float(x), "grad": float(g), "expected": str(want)}, mirrored=False)
+            break
+        if not np.all(np.isfinite(gs)) or (inside > 0 and not np.any(gs != 0)):
+          run.violate("nonzero", dict(cls=cls, alpha=kw["alpha"], use_ste=True, qf_is_1=True),
+                      {"config": label, "note": "gradient identically zero or not finite"}, mirrored=False)
+        run.count("stream_rank_auto", xs.size)
+
+    # ---- quantized_hswish (quantized_bits applied to x * relu6-like(x + shift) / bound): gradient = hswish'(x)
+    # as TensorFlow computes it on the same surrogate expression (oracle input), value = the quantized_bits
+    # twin applied to the surrogate value; both learning phases, with and without the flag
+    for bits, integer, shift, ub, qf in [(6, 2, 3, 6, F(1)), (5, 1, 2, 4, F(1, 4)), (8, 3, 3, 6, HALF)]:
+      for stoch in (False, True):
+        for phase in (0, 1):
+          xs = np.unique(np.concatenate([short_dyadics(rng, 20, -8, 8, bits=6),
+                                         np.array([-shift - 1, -shift + 0.5, ub - shift - 0.5, ub - shift + 1, 0.0, 0.5],
+                                                  dtype=np.float32)])).astype(np.float32)
+          U = draws(len(xs))
+          q = Q.quantized_hswish(bits, integer, 1, qnoise_factor=float(qf), use_stochastic_rounding=stoch,
+                                 relu_shift=shift, relu_upper_bound=ub)
+          ys, gs = measure(q, xs, phase=phase, U=U)
+          xt = tf.constant(xs)
+          with tf.GradientTape() as tape:
+            tape.watch(xt)
+            sx = xt + float(shift)
+            hs = xt * tf.where(sx <= float(ub), K.relu(sx), tf.ones_like(sx) * float(ub)) / float(ub)
+          dh = np.asarray(tape.gradient(hs, xt), dtype=np.float32)
+          twin = Q.quantized_bits(bits, integer, 1, qnoise_factor=float(qf), use_stochastic_rounding=stoch)
+          yt = value_of(twin, np.asarray(hs, dtype=np.float32), phase=phase, U=U)
+          label = ("quantized_hswish(%d,%d,1,qnoise_factor=%s,relu_shift=%d,relu_upper_bound=%d%s) [learning_phase=%d]"
+                   % (bits, integer, qf, shift, ub, ",use_stochastic_rounding=True" if stoch else "", phase))
+          key = dict(cls="quantized_hswish", stoch=stoch, phase=phase)
+          for x, y, g, d, t_ in zip(xs, ys, gs, dh, yt):
+            run.case((label, float(x)))
+            run.compared += 1
+            if abs(F(float(g)) - F(float(d))) > abs(F(float(d))) * F(1, 2 ** 21):
+              run.violate("grad_ste", dict(key, kind="hswish"),
+                          {"config": label, "x": float(x), "grad": float(g), "expected": float(d)}, mirrored=False)
+              break
+            if F(float(y)) != F(float(t_)):
+              run.violate("value_mix", dict(key, kind="hswish"),
+                          {"config": label, "x": float(x), "y": float(y), "quantized_bits_of_surrogate": float(t_)},
+                          mirrored=False)
+              break
+          if not np.any(gs != 0) or not np.all(np.isfinite(gs)):
+            run.violate("nonzero", key, {"config": label, "note": "gradient identically zero or not finite"}, mirrored=False)
+          run.count("stream_hswish", len(xs))
+
+    # ---- stream `argforms`: the same numeric option in another form => the same behaviour
+    forms = [("np.float32", np.float32), ("np.float64", np.float64), ("0-d ndarray", lambda v: np.array(v, dtype=np.float32)),
+             ("tf.constant", lambda v: tf.constant(v, dtype=tf.float32)),
+             ("tf.Variable", lambda v: tf.Variable(v, dtype=tf.float32, trainable=False))]
+    fi = 0
+    for qf, ste in ((HALF, True), (F(1, 4), False), (F(1), True)):
+      for spec in base_specs(qf, ste):
+        with guard(spec, "argforms"):
+          name, conv = forms[fi % len(forms)]
+          fi += 1
+          xs = spec_pts(spec, 24)
+          ys, gs = measure(spec["make"](qnoise_factor=conv(float(qf))), xs)
+          y1 = value_of(spec["make"](**spec["one"]), xs)
+          emit(spec, xs, ys, gs, y1, " [qnoise_factor as %s]" % name, stream="argforms")
+    for spec, over, what in [(S_bits(4, 1, 0, 1, None, True, HALF), dict(bits=np.int64(4), integer=np.int32(1)), "bits np.int64, integer np.int32"),
+                             (S_linear(4, 1, 1, 1, None, HALF), dict(bits=np.int64(4), integer=np.int64(1)), "bits / integer np.int64"),
+                             (S_relu(4, 1, 2.0, True, None, True, HALF), dict(bits=np.int64(4), integer=np.int64(1)), "bits / integer np.int64"),
+                             (S_relu(4, 2, 0.5, False, 3.0, True, HALF), dict(relu_upper_bound=np.float32(3.0)), "relu_upper_bound np.float32"),
+                             (S_relu(4, 2, 0.5, False, 3.0, True, HALF), dict(relu_upper_bound=3), "relu_upper_bound int"),
+                             (S_relu_po2(4, 2.0, 2.0, True, HALF), dict(max_value=2), "max_value int"),
+                             (S_relu_po2(4, 2.0, 2.0, False, HALF), dict(max_value=np.float32(2.0), bits=np.int64(4)), "max_value np.float32, bits np.int64"),
+                             (S_po2(4, 2.0, True, HALF), dict(max_value=np.float64(2.0)), "max_value np.float64")]:
+      with guard(spec, "argforms:" + what):
+        xs = spec_pts(spec, 24)
+        ys, gs = measure(spec["make"](**over), xs)
+        y1 = value_of(spec["make"](**spec["one"]), xs)
+        emit(spec, xs, ys, gs, y1, " [%s]" % what, stream="argforms")
+
+    # ---- stream `process`: module-level switches.  (a) learning phase 1 WITHOUT the flag changes nothing;
+    # (b) set_internal_sigmoid('hard' | 'smooth' | 'real') changes the surrogate of quantized_tanh / _sigmoid —
+    # in both orders (construct -> switch -> call, switch -> construct -> call), the mode at CALL time counts;
+    # (c) K.set_image_data_format('channels_first') for the per-channel scales of binary / ternary.
+    for spec in base_specs(HALF, True) + [S_act("tanh", 4, 0, False), S_act("sigmoid", 3, 1, False), S_act("tanh", 3, 1, True)]:
+      with guard(spec, "process:learning_phase=1"):
+        xs = spec_pts(spec, 24)
+        U = draws(len(xs))
+        ys, gs, y1 = fresh(spec, xs, phase=1, U=U)
+        emit(spec, xs, ys, gs, y1, " [learning_phase=1, no stochastic rounding]", stream="process_phase1")
+    try:
+      for mode in ("smooth", "real", "hard"):
+        for order in ("switch_then_construct", "construct_then_switch"):
+          for opn, bits, sym in (("tanh", 4, 0), ("sigmoid", 4, 1)):
+            spec = S_act(opn, bits, sym, False)
+            with guard(spec, "process:set_internal_sigmoid %s %s" % (mode, order)):
+              xs = spec_pts(spec)
+              if order == "switch_then_construct":
+                Q.set_internal_sigmoid(mode)
+                q = spec["make"]()
+              else:
+                Q.set_internal_sigmoid("hard" if mode != "hard" else "smooth")
+                q = spec["make"]()
+                grad_of(q, xs[:4])
+                Q.set_internal_sigmoid(mode)
+              ys, gs = measure(q, xs)
+              emit(spec, xs, ys, gs, None, " [set_internal_sigmoid('%s'), %s]" % (mode, order), keyx=dict(sigmoid_mode=mode),
+                   stream="process_sigmoid")
+    finally:
+      Q.set_internal_sigmoid("hard")
+    fmt0 = K.image_data_format()
+    try:
+      K.set_image_data_format("channels_first")
+      for cls in ("binary", "ternary"):
+        for alpha in ("auto", "auto_po2"):
+          x2 = short_dyadics(rng, 24, -2, 2).reshape(3, 8) * np.array([[1.0], [0.25], [4.0]], dtype=np.float32)
+          x2 = np.where(x2 == 0, np.float32(0.5), x2).astype(np.float32)
+          w = po2w(x2.shape)
+          ys, gs = measure(getattr(Q, cls)(alpha=alpha), x2, w)
+          add("binter", dict(alpha_none=False), None, x2.ravel(),
+              dict(xqs=core.enc_list(ys.ravel()), ths=core.enc_list(np.zeros(x2.size)), dths=core.enc_list(np.zeros(x2.size))),
+              label="%s(alpha=%s) on a 3x8 tensor [image_data_format=channels_first]" % (cls, alpha),
+              surrogate=("scaled_identity", F(1)), key=dict(cls=cls, alpha=str(alpha)), pre=(ys.ravel(), gs.ravel()))
+    finally:
+      K.set_image_data_format(fmt0)
+  finally:
+    fu.restore()
+    K.set_learning_phase(0)
+    Q.set_internal_sigmoid("hard")
+
   outs = core.run_driver("C06", lines)
   for m, o in zip(meta, outs):
     xs, ys, gs = m["xs"], m["ys"], m["gs"]
@@ -372,10 +1131,12 @@ def run(run: core.Run, tier: str):
       fy, fg = F(float(y)), F(float(g))
       okv = (fy == mv)
       okt = (fg == mt)
-      if m["op"].endswith("_real") or m["op"] == "binter":
+      if m["op"].endswith("_real") or m["op"] in ("binter", "binary_sr"):
         # oracle-input device: tanh' / sigmoid' products are float32 roundings of the exact product
         okt = okt or abs(fg - mt) <= abs(mt) * F(1, 2 ** 21) + F(1, 2 ** 40)
-        okv = okv or m["op"] == "binter" and abs(fy - mv) <= abs(mv) * F(1, 2 ** 22)
+        okv = okv or m["op"] in ("binter", "binary_sr") and abs(fy - mv) <= abs(mv) * F(1, 2 ** 22)
+        # binary_sr: the arg-max element's gradient is a float32 SUM over the scale group (cancellation)
+        okt = okt or m["op"] == "binary_sr" and abs(fg - mt) <= F(1, 2 ** 16)
       if not (okv and okt):
         bad.append((float(x), [float(y), float(g)], [float(mv), float(mt)]))
     if bad:
@@ -388,9 +1149,15 @@ def run(run: core.Run, tier: str):
       continue
     kind, par = sur
     all_zero = not any(float(g) != 0.0 for g in gs)
+    if not np.all(np.isfinite(np.asarray(gs, dtype=np.float64))):
+      run.violate("finite", dict(m["key"], kind=kind), {"config": m["label"], "note": "non-finite gradient"},
+                  mirrored=mirrored)
+      continue
+    unclipped = 0
     for i, (x, g) in enumerate(zip(xs, gs)):
       fx, fg = F(float(x)), F(float(g))
       exp = None
+      tol = F(0)
       if kind == "scaled_identity":
         exp = par
       elif kind == "relu":
@@ -399,6 +1166,7 @@ def run(run: core.Run, tier: str):
           exp = F(0)
         else:
           exp = fac * (F(1) if fx > 0 else slope)
+          unclipped += (fx > 0 or slope != 0)       # the surrogate itself is flat elsewhere
       elif kind == "linear_clip":
         lo, hi, qf = par
         exp = F(1) if lo <= fx <= hi else 1 - qf
@@ -409,16 +1177,31 @@ def run(run: core.Run, tier: str):
         r = fx / F(float(qsv[i]))
         exp = F(1) if cmin < r < cmax else (1 - qf if (r < cmin or r > cmax) else None)
       elif kind == "tanh":
-        exp = None
+        # unscaled binary / ternary: tanh'(x) as TensorFlow computes it (oracle input), when supplied
+        if isinstance(par, np.ndarray):
+          exp = F(float(par[i]))
+          tol = abs(exp) * F(1, 2 ** 21)
+      elif kind == "surrogate_mask":
+        # quantized_tanh / quantized_sigmoid: surrogate'(x) (oracle input) where the OUTPUT is strictly inside
+        # the clip range; an output AT a clip bound may be clipped (0) or not (inclusive convention): tie only
+        dps, lo, hi = par
+        fyv = F(float(ys[i]))
+        if lo < fyv < hi:
+          exp = F(float(dps[i]))
+          tol = abs(exp) * F(1, 2 ** 21)
+          unclipped += (exp != 0)
       elif kind in ("hard_tanh", "hard_sigmoid"):
         exp = None     # piecewise: covered by the model tie (clip masks at kinks are conventions)
-      if exp is not None and fg != exp:
+      if kind in ("linear_clip", "linear_clip_s") and exp == 1:
+        unclipped += 1
+      if exp is not None and abs(fg - exp) > tol:
         run.violate("grad_ste", dict(m["key"], kind=kind),
                     {"config": m["label"], "x": float(x), "grad": float(g), "expected": str(exp)}, mirrored=mirrored)
         break
-    if all_zero and kind in ("scaled_identity", "relu"):
-      run.violate("nonzero", dict(m["key"]), {"config": m["label"], "note": "gradient identically zero"},
-                  mirrored=mirrored)
+    if all_zero and (kind == "scaled_identity" or
+                     (kind in ("relu", "surrogate_mask", "linear_clip", "linear_clip_s") and unclipped > 0)):
+      run.violate("nonzero", dict(m["key"]), {"config": m["label"], "note": "gradient identically zero on the "
+                                              "unclipped range"}, mirrored=mirrored)
     # ---- clause oracle on the real code: the forward value is the surrogate mixed with the quantized
     # value by the noise factor, y == x_u + qf * (q(x) - x_u), q(x) = the same configuration at factor 1
     if m["mix"] is not None:
@@ -437,5 +1220,7 @@ def run(run: core.Run, tier: str):
                        "expected_y": float(want), "qnoise_factor": str(qf)}, mirrored=mirrored)
           break
       run.count("clause_value_mix", len(xs))
+  run.assumptions.append("tf.random.uniform is replaced by a stand-in returning fixed unit draws while the stochastic "
+                         "streams run (the gradient clauses do not depend on the draws; the value tie does)")
   run.assumptions.append("TF autodiff conventions (clip inclusive, leaky-relu slope at 0, zero gradient of "
                          "round/sign, stop_gradient) are definitions of the dual-number calculus, validated by the tie")
